@@ -314,6 +314,11 @@ class Interp(object):
         if isinstance(s, ast.AugAssign):
             self._exprs(fi, s.value, env, depth)
             self._target_write(fi, s.target, s, env)
+            # `name += ...` on a name that aliases a list of the caller's IR extends that very list in place
+            if isinstance(s.target, ast.Name) and isinstance(s.op, ast.Add):
+                k = env.get(s.target.id)
+                if k is not None and k.lvl in ("BODY", "L1", "ITEMS"):
+                    self.writes.append(Write(fi, s, "BODY" if k.lvl == "BODY" else k.lvl, "%s += ..." % s.target.id, k.owned))
             return
         if isinstance(s, ast.Delete):
             for t in s.targets:
